@@ -62,6 +62,7 @@ type Compiled struct {
 
 type Case struct {
 	Index    int
+	Tools    bool // laid out by the commands as well (otherwise gcsizes and compiler only)
 	Name     string
 	Src      string
 	Nodes    int
@@ -91,11 +92,12 @@ func main() {
 	work := flag.String("work", "", "scratch directory")
 	out := flag.String("out", "", "output JSON")
 	seed := flag.Uint64("seed", 1, "seed")
-	n := flag.Int("n", 150, "number of struct types")
+	n := flag.Int("n", 150, "number of struct types run through the commands")
+	extra := flag.Int("extra", 0, "further struct types laid out by gcsizes and the compiler only")
 	bin := flag.String("bin", "", "directory holding structlayout and structlayout-optimize built from the working tree")
 	flag.Parse()
 
-	gtypes, decls := generate(*seed, *n)
+	gtypes, decls := generate(*seed, *n+*extra)
 
 	// ---- the package
 	var src strings.Builder
@@ -252,6 +254,10 @@ func main() {
 	var wg sync.WaitGroup
 	sem := make(chan struct{}, 16)
 	for i := range gtypes {
+		if i >= *n {
+			continue
+		}
+		cases[i].Tools = true
 		wg.Add(1)
 		go func(i int) {
 			defer wg.Done()
